@@ -17,6 +17,7 @@ type RevProxy struct {
 	Whoami  func(ctx context.Context, salt int64) (int64, error)
 	Aliased func(ctx context.Context, salt int64) (int64, error) `rpc_method:"rev.Alias"`
 	Feed    func(ctx context.Context) (<-chan int64, error)
+	Poke    func(salt int64) error `notify:"true"`
 }
 
 // revImpl is registered on each client.
@@ -37,6 +38,8 @@ type H struct {
 	revRet     map[int64]int
 	useAliased bool
 	useFeed    bool
+	usePoke    bool          // the reverse call is a notification
+	waitLoss   chan struct{} // if set, the reverse call is made only after the harness closed it
 	entered    chan struct{}
 }
 
@@ -54,7 +57,12 @@ func (h *H) Fwd(ctx context.Context, tag int64, salt int64) (int64, error) {
 	}
 	var v int64
 	var err error
-	if h.useFeed {
+	if h.waitLoss != nil {
+		<-h.waitLoss
+	}
+	if h.usePoke {
+		err = rc.Poke(salt)
+	} else if h.useFeed {
 		var ch <-chan int64
 		ch, err = rc.Feed(ctx)
 		if err == nil && ch != nil {
@@ -234,6 +242,36 @@ func HarnessReverseFromNotification() {
 	pc.CloseGraceful()
 	verif.Quiesce()
 	verif.Reach("reverse-from-notification-done")
+}
+
+// HarnessReverseNotifyAfterLoss: the reverse call is a notification (no response is
+// awaited) and is made right after the calling client's connection was lost —
+// possibly before the server's connection loop has noticed the loss. It returns
+// (with or without an error); it never blocks.
+func HarnessReverseNotifyAfterLoss() {
+	h := newH()
+	h.usePoke = true
+	h.waitLoss = make(chan struct{})
+	h.entered = make(chan struct{})
+	srv := jsonrpc.NewServer(jsonrpc.WithReverseClient[RevProxy]("rev"))
+	srv.Register("H", h)
+	pc := verif.DialRaw(srv, nil)
+	pc.Send([]byte(`{"jsonrpc":"2.0","id":1,"method":"H.Fwd","params":[0,5]}`))
+	<-h.entered
+	if verif.Bool("graceful") {
+		pc.CloseGraceful()
+	} else {
+		pc.Abort()
+	}
+	go func() {
+		verif.AtStep("poke_at", verif.Bound("steps", 12))
+		close(h.waitLoss)
+	}()
+	verif.Quiesce()
+	h.mu.Lock()
+	verif.Assert(h.revRet[0] == 1, "reverse-notification-returns-after-client-is-gone")
+	h.mu.Unlock()
+	verif.Reach("reverse-notify-after-loss-done")
 }
 
 // HarnessReverseAbsent: without the server option, or over non-WebSocket transports, no reverse client is present.
